@@ -29,6 +29,14 @@ def r1(ctx: Ctx) -> None:
         cbs = [e for e in evs if e.kind == "call" and e.name in ("submitted_order", "canceled_order")]
         good = [e for e in cbs if e.name == cb_name and kw(e, "log", 0) == b.accept.term and e.recv is not None and strip_ver(e.recv) == _agent_lookup(owner)]
         ok = len(cbs) == 1 and len(good) == 1 and evs.index(good[0]) > i
+        if not cbs:
+            sib = [o for o in blocks if o is not b and o.phase == b.phase and o.kind == b.kind and any(e.kind == "call" and e.name == cb_name for e in o.path.events)]
+            if sib:
+                mine = {(key(strip_ver(c)), pol) for c, pol, _ in b.path.conds}
+                theirs = {(key(strip_ver(c)), pol) for c, pol, _ in sib[0].path.conds}
+                diff = sorted(("" if pol else "not ") + k for k, pol in mine - theirs)
+                ctx.unrec(f, b.accept.node, f"{b.phase} {b.kind}: owner notified once with the market's record", "the call back is made under a condition that is not modelled (whether the skipped call would have done nothing is not decided)", "; ".join(diff)[:200])
+                continue
         ctx.check(ok, f, b.accept.node, f"{b.phase} {b.kind}: owner notified once with the market's record", f"id2agent[{short(owner)}].{cb_name}(log=<record>) once",
                   "; ".join(f"{short(e.recv)}.{e.name}(log={short(kw(e, 'log', 0))})" for e in cbs) or "no callback")
         if ok:
@@ -112,6 +120,9 @@ def r2(ctx: Ctx) -> None:
                 got = [short(strip_ver(e.recv)) for e in cbs if kw(e, "log", 0) == el]
                 ok = len(cbs) == 2 and sorted(got) == sorted(want) and not bp.conds and bp.exit[0] == "fall"
                 dfr = deferred_calls(bp, "executed_order")
+                if not ok and bp.conds and bp.exit[0] == "fall" and not dfr and all(kw(e, "log", 0) == el for e in cbs) and all(short(strip_ver(e.recv)) in want for e in cbs) and len(cbs) <= 2:
+                    ctx.unrec(f, l.node, f"{b.phase} {b.kind}: buyer and seller of each fill are told once each", "a call back is made under a condition that is not modelled (whether the skipped call would have done nothing is not decided)", bp.describe()[:160])
+                    continue
                 if not ok and dfr:
                     # the callbacks are wrapped in closures that run later: they see the loop's variables as they are THEN
                     import ast as _ast
